@@ -52,7 +52,7 @@ Record cfg := {
   c_chunk : N      (* chunk size of the filer HTTP write path: 1024*1024*maxMB *)
 }.
 
-Definition max_part_id : N := 100000.      (* globalMaxPartID *)
+Definition max_part_id : N := 10000.       (* globalMaxPartID *)
 Definition max_parts_list : N := 10000.    (* maxPartsList *)
 
 (* ---------- part file names: fmt.Sprintf("%04d.part", partID) ---------- *)
@@ -423,10 +423,11 @@ Definition range_at_end (s : store) (k : path) (r : option (N * N)) : bool :=
   | _, _ => false
   end.
 
-(* 5: a part upload / part copy that the gateway accepts (n <= globalMaxPartID) although the part
-   number is outside the S3 range 1..10000: part 0 and parts 10001..100000 *)
+(* (5 was: part numbers 0 and 10001..100000 accepted; repaired, the number 5 is not reused.)
+   The S3 range of part numbers, used by the specification: *)
 Definition valid_part (n : N) : bool := in_range 1 10000 n.
-Definition trig_part_range (n : N) : bool := negb (valid_part n).
+(* PutObjectPartHandler / CopyObjectPartHandler: partID < 1 || partID > globalMaxPartID -> ErrInvalidMaxParts *)
+Definition part_refused (n : N) : bool := (n <? 1) || (max_part_id <? n).
 (* 6: CompleteMultipartUpload whose part list is not exactly the uploaded part numbers in ascending
    order (a subset, a permutation, a number that was never uploaded, duplicates): the body is not read *)
 Fixpoint nums_eqb (a b : list N) : bool :=
@@ -450,9 +451,8 @@ Definition put_part (c : cfg) (st : state) (u n : N) (b : bytes) : state * res *
   | Some up =>
       match u_dir up with
       | None => (st, RNoUpload, [])
-      | Some d => if max_part_id <? n then (st, RErr, [])
-                  else (set_updir st u up (Some (dir_put (part_name n) (store_body c b) d)), ROk,
-                        flag 5 (trig_part_range n))
+      | Some d => if part_refused n then (st, RErr, [])
+                  else (set_updir st u up (Some (dir_put (part_name n) (store_body c b) d)), ROk, [])
       end
   end.
 
@@ -480,7 +480,7 @@ Definition step (c : cfg) (st : state) (o : op) : state * res * list N :=
       | None => (st, RNoUpload, [])
       | Some up => match u_dir up with
                    | None => (st, RNoUpload, [])
-                   | Some _ => if max_part_id <? n then (st, RErr, [])
+                   | Some _ => if part_refused n then (st, RErr, [])
                                else if tampered then (st, RErr, []) else put_part c st u n b
                    end
       end
@@ -491,12 +491,12 @@ Definition step (c : cfg) (st : state) (o : op) : state * res * list N :=
           match u_dir up with
           | None => (st, RNoUpload, [])                        (* the upload must exist, as for PutObjectPart *)
           | Some d =>
-              if max_part_id <? n then (st, RErr, [])
+              if part_refused n then (st, RErr, [])
               else match fetch_range s src r with
                    | None => (st, RErr, [])                   (* ErrInvalidCopySource *)
                    | Some data =>
                        (set_updir st u up (Some (dir_put (part_name n) (store_body c data) d)), ROk,
-                        flag 2 (is_dir_at s src) ++ flag 3 (range_at_end s src r) ++ flag 5 (trig_part_range n))
+                        flag 2 (is_dir_at s src) ++ flag 3 (range_at_end s src r))
                    end
           end
       end
